@@ -190,40 +190,47 @@ Proof. intros c t s H. unfold sh_step3. destruct (t <? 3) eqn:E; auto. apply Nat
 Lemma sh12_bound : forall c t s, 3 <= t -> sh_step12 c t s = None.
 Proof. intros c t s H. unfold sh_step12. do 3 (destruct t as [|t]; [lia|]). reflexivity. Qed.
 
-(* the protocols: before 1b1aba3 / HEAD / HEAD with a failing select() / that with notes/fix_C13_4.diff *)
+(* the protocols: before 1b1aba3 / HEAD (1b1aba3 + 86ddb5d) / HEAD without the join / 1b1aba3 only (before 86ddb5d) *)
 Definition cfg_old : sh_cfg := mkCfg false true false false.
-Definition cfg_head : sh_cfg := mkCfg true true false false.
-Definition cfg_nojoin : sh_cfg := mkCfg true false false false.
-Definition cfg_selfail : sh_cfg := mkCfg true true true false.
-Definition cfg_selfail_fixed : sh_cfg := mkCfg true true true true.
+Definition cfg_head : sh_cfg := mkCfg true true true true.
+Definition cfg_nojoin : sh_cfg := mkCfg true false true true.
+Definition cfg_before_86ddb5d : sh_cfg := mkCfg true true true false.
 Lemma sh_step_is_head : sh_step true = sh_step_cfg cfg_head.
 Proof. reflexivity. Qed.
 
-Definition sh_reach (repaired : bool) : list sh_st :=
-  explore sh_st sh_st_beq (sh_step repaired) 4 200000 [sh_init] [].
+(* membership of every initial situation (nothing pending / an update pending / client on hold) in an explored set *)
+Lemma inits_in : forall L, forallb (fun x => mem sh_st sh_st_beq x L) sh_inits = true -> forall s0, In s0 sh_inits -> In s0 L.
+Proof.
+  intros L H s0 Hs. rewrite forallb_forall in H. apply (mem_in _ _ internal_sh_st_dec_bl). apply H. exact Hs.
+Qed.
 
-Lemma sh_repaired_closed : closed sh_st sh_st_beq (sh_step true) 4 (sh_reach true) = true.
+Definition sh_reach : list sh_st := explore sh_st sh_st_beq (sh_step true) 4 400000 sh_inits [].
+Definition sh_finishing : list nat := concat (repeat [0;1;2;3] 40).      (* round robin *)
+Lemma sh_closed : closed sh_st sh_st_beq (sh_step true) 4 sh_reach = true.
 Proof. vm_compute. reflexivity. Qed.
-Lemma sh_repaired_init : In sh_init (sh_reach true).
-Proof. apply (mem_in _ _ internal_sh_st_dec_bl). vm_compute. reflexivity. Qed.
-Lemma sh_repaired_gone : forallb sh_gone_ok (sh_reach true) = true.
+Lemma sh_inits_in : forallb (fun x => mem sh_st sh_st_beq x sh_reach) sh_inits = true.
 Proof. vm_compute. reflexivity. Qed.
-Lemma sh_repaired_free : forallb (stuck_free sh_st (sh_step true) 4 sh_final) (sh_reach true) = true.
+Lemma sh_all_gone : forallb sh_gone_ok sh_reach = true.
+Proof. vm_compute. reflexivity. Qed.
+Lemma sh_all_free : forallb (stuck_free sh_st (sh_step true) 4 sh_final) sh_reach = true.
+Proof. vm_compute. reflexivity. Qed.
+Lemma sh_all_finish : forallb (fun s => sh_final (run sh_st (sh_step true) sh_finishing s)) sh_reach = true.
 Proof. vm_compute. reflexivity. Qed.
 
-(* HEAD's protocol, one client: under every schedule of {application: rfbShutdownServer then rfbScreenCleanup,
-   clientInput, clientOutput, a second rfbCloseClient caller} the teardown (rfbClientConnectionGone: unlink, hook, free)
-   runs at most once; exactly once by the time the client's input thread has ended; and when the application's
-   rfbScreenCleanup - the competing caller, which tears down every client it still finds listed - is through, it has
-   run exactly once and the record is unlinked.  (What keeps rfbScreenCleanup from a second teardown is the join.) *)
-Theorem gone_once_threaded : forall sched,
-  let s := run sh_st (sh_step true) sched sh_init in
+(* HEAD's protocol, one client, whatever clientOutput is doing (waiting / sending an update / on hold), select() may fail:
+   under every schedule of {application: rfbShutdownServer then rfbScreenCleanup, clientInput, clientOutput, a second
+   rfbCloseClient caller} the teardown (rfbClientConnectionGone: unlink, hook, free) runs at most once; exactly once by the
+   time the client's input thread has ended; and when the application's rfbScreenCleanup - the competing caller, which
+   tears down every client it still finds listed - is through, it has run exactly once and the record is unlinked.
+   (What keeps rfbScreenCleanup from a second teardown is the join.) *)
+Theorem gone_once_threaded : forall s0 sched, In s0 sh_inits ->
+  let s := run sh_st (sh_step true) sched s0 in
   sh_gone s <= 1 /\ (sh_pcI s = SH_IN_DONE -> sh_gone s = 1) /\
   (sh_pcA s = SH_APP_DONE -> sh_gone s = 1 /\ sh_inlist s = false).
 Proof.
-  intros sched s.
+  intros s0 sched H0 s.
   assert (H := all_schedules sh_st sh_st_beq internal_sh_st_dec_bl (sh_step true) 4 (sh_bound true)
-                 (sh_reach true) sh_gone_ok sh_init sh_repaired_closed sh_repaired_init sh_repaired_gone sched).
+                 sh_reach sh_gone_ok s0 sh_closed (inits_in _ sh_inits_in s0 H0) sh_all_gone sched).
   fold s in H. unfold sh_gone_ok in H. apply andb_true_iff in H. destruct H as [H H3].
   apply andb_true_iff in H. destruct H as [H1 H2].
   apply Nat.leb_le in H1. split; [exact H1|]. split.
@@ -233,8 +240,8 @@ Proof.
 Qed.
 
 Lemma gone_once_nonvacuous :
-  let s := run sh_st (sh_step true) (concat (repeat [0;1;2;3] 12)) sh_init in
-  sh_pcA s = SH_APP_DONE /\ sh_pcI s = SH_IN_DONE /\ sh_gone s = 1.
+  let s := run sh_st (sh_step true) ([2;2;2;2;2;2] ++ concat (repeat [0;1;2;3] 24)) sh_init_pending in
+  sh_pcA s = SH_APP_DONE /\ sh_pcI s = SH_IN_DONE /\ sh_gone s = 1 /\ sh_pend s = false.
 Proof. vm_compute. repeat split. Qed.
 
 (* the join is what the previous theorem rests on: an application that goes on to rfbScreenCleanup WITHOUT having joined
@@ -244,56 +251,76 @@ Theorem gone_twice_without_join :
   sh_gone (run sh_st (sh_step_cfg cfg_nojoin) sh_nojoin_witness sh_init) = 2.
 Proof. vm_compute. reflexivity. Qed.
 
-(* HEAD's protocol (clientOutput re-tests cl->state after taking updateMutex): whatever the schedule did so
-   far, the system is finished or some thread can still move - no deadlock *)
-Theorem shutdown_never_stuck_repaired : forall sched,
-  let s := run sh_st (sh_step true) sched sh_init in
+(* never stuck, always finishable *)
+Theorem shutdown_never_stuck_repaired : forall s0 sched, In s0 sh_inits ->
+  let s := run sh_st (sh_step true) sched s0 in
   sh_final s = true \/ exists t, t < 4 /\ enabled sh_st (sh_step true) t s = true.
 Proof.
-  intros sched s.
+  intros s0 sched H0 s.
   assert (H := all_schedules sh_st sh_st_beq internal_sh_st_dec_bl (sh_step true) 4 (sh_bound true)
-                 (sh_reach true) (stuck_free sh_st (sh_step true) 4 sh_final) sh_init
-                 sh_repaired_closed sh_repaired_init sh_repaired_free sched).
+                 sh_reach (stuck_free sh_st (sh_step true) 4 sh_final) s0
+                 sh_closed (inits_in _ sh_inits_in s0 H0) sh_all_free sched).
   fold s in H. unfold stuck_free in H. apply orb_true_iff in H. destruct H as [H|H]; auto.
   right. apply existsb_exists in H. destruct H as [t [Ht E]]. exists t. split.
   - apply in_seq in Ht. lia.
   - unfold enabled. exact E.
 Qed.
 
-(* and from every reachable state a finite schedule finishes the shutdown *)
-Definition sh_finishing : list nat := concat (repeat [0;1;2;3] 40).      (* round robin *)
-Lemma sh_repaired_can_finish :
-  forallb (fun s => sh_final (run sh_st (sh_step true) sh_finishing s)) (sh_reach true) = true.
-Proof. vm_compute. reflexivity. Qed.
-
-Theorem shutdown_can_always_finish_repaired : forall sched,
-  sh_final (run sh_st (sh_step true) sh_finishing (run sh_st (sh_step true) sched sh_init)) = true.
+Theorem shutdown_can_always_finish_repaired : forall s0 sched, In s0 sh_inits ->
+  sh_final (run sh_st (sh_step true) sh_finishing (run sh_st (sh_step true) sched s0)) = true.
 Proof.
-  intros sched.
+  intros s0 sched H0.
   exact (all_schedules sh_st sh_st_beq internal_sh_st_dec_bl (sh_step true) 4 (sh_bound true)
-           (sh_reach true) (fun s => sh_final (run sh_st (sh_step true) sh_finishing s)) sh_init
-           sh_repaired_closed sh_repaired_init sh_repaired_can_finish sched).
+           sh_reach (fun s => sh_final (run sh_st (sh_step true) sh_finishing s)) s0
+           sh_closed (inits_in _ sh_inits_in s0 H0) sh_all_finish sched).
 Qed.
 
 (* the same WITHOUT the helping second closer: only rfbShutdownServer, clientInput and clientOutput run *)
-Definition sh3_reach : list sh_st := explore sh_st sh_st_beq (sh_step3 cfg_head) 3 200000 [sh_init] [].
+Definition sh3_reach : list sh_st := explore sh_st sh_st_beq (sh_step3 cfg_head) 3 400000 sh_inits [].
 Definition sh3_finishing : list nat := concat (repeat [0;1;2] 40).
 Lemma sh3_closed : closed sh_st sh_st_beq (sh_step3 cfg_head) 3 sh3_reach = true.
 Proof. vm_compute. reflexivity. Qed.
-Lemma sh3_init : In sh_init sh3_reach.
-Proof. apply (mem_in _ _ internal_sh_st_dec_bl). vm_compute. reflexivity. Qed.
+Lemma sh3_inits_in : forallb (fun x => mem sh_st sh_st_beq x sh3_reach) sh_inits = true.
+Proof. vm_compute. reflexivity. Qed.
 Lemma sh3_good :
   forallb (fun s => stuck_free sh_st (sh_step3 cfg_head) 3 sh_final3 s && sh_final3 (run sh_st (sh_step3 cfg_head) sh3_finishing s))
           sh3_reach = true.
 Proof. vm_compute. reflexivity. Qed.
-Theorem shutdown_terminates_three_threads : forall sched,
-  let s := run sh_st (sh_step3 cfg_head) sched sh_init in
+Theorem shutdown_terminates_three_threads : forall s0 sched, In s0 sh_inits ->
+  let s := run sh_st (sh_step3 cfg_head) sched s0 in
   (sh_final3 s = true \/ exists t, t < 3 /\ enabled sh_st (sh_step3 cfg_head) t s = true) /\
   sh_final3 (run sh_st (sh_step3 cfg_head) sh3_finishing s) = true.
 Proof.
-  intros sched s.
+  intros s0 sched H0 s.
   assert (H := all_schedules sh_st sh_st_beq internal_sh_st_dec_bl (sh_step3 cfg_head) 3 (sh3_bound cfg_head)
-                 sh3_reach _ sh_init sh3_closed sh3_init sh3_good sched).
+                 sh3_reach _ s0 sh3_closed (inits_in _ sh3_inits_in s0 H0) sh3_good sched).
+  cbv beta in H. fold s in H. apply andb_true_iff in H. destruct H as [H1 H2]. split; [|exact H2].
+  unfold stuck_free in H1. apply orb_true_iff in H1. destruct H1 as [H1|H1]; auto.
+  right. apply existsb_exists in H1. destruct H1 as [t [Ht E]]. exists t. split.
+  - apply in_seq in Ht. lia.
+  - unfold enabled. exact E.
+Qed.
+
+(* and the client's two threads ALONE (nobody closes the client): when select() fails for good they finish by themselves,
+   with exactly one teardown *)
+Definition sh12_reach : list sh_st := explore sh_st sh_st_beq (sh_step12 cfg_head) 3 400000 sh_inits [].
+Definition sh12_finishing : list nat := concat (repeat [1;2] 40).
+Lemma sh12_closed : closed sh_st sh_st_beq (sh_step12 cfg_head) 3 sh12_reach = true.
+Proof. vm_compute. reflexivity. Qed.
+Lemma sh12_inits_in : forallb (fun x => mem sh_st sh_st_beq x sh12_reach) sh_inits = true.
+Proof. vm_compute. reflexivity. Qed.
+Lemma sh12_good :
+  forallb (fun s => stuck_free sh_st (sh_step12 cfg_head) 3 sh_final12 s &&
+                    sh_final12 (run sh_st (sh_step12 cfg_head) sh12_finishing s)) sh12_reach = true.
+Proof. vm_compute. reflexivity. Qed.
+Theorem select_failure_client_threads_finish : forall s0 sched, In s0 sh_inits ->
+  let s := run sh_st (sh_step12 cfg_head) sched s0 in
+  (sh_final12 s = true \/ exists t, t < 3 /\ enabled sh_st (sh_step12 cfg_head) t s = true) /\
+  sh_final12 (run sh_st (sh_step12 cfg_head) sh12_finishing s) = true.
+Proof.
+  intros s0 sched H0 s.
+  assert (H := all_schedules sh_st sh_st_beq internal_sh_st_dec_bl (sh_step12 cfg_head) 3 (sh12_bound cfg_head)
+                 sh12_reach _ s0 sh12_closed (inits_in _ sh12_inits_in s0 H0) sh12_good sched).
   cbv beta in H. fold s in H. apply andb_true_iff in H. destruct H as [H1 H2]. split; [|exact H2].
   unfold stuck_free in H1. apply orb_true_iff in H1. destruct H1 as [H1|H1]; auto.
   right. apply existsb_exists in H1. destruct H1 as [t [Ht E]]. exists t. split.
@@ -312,85 +339,88 @@ Proof.
   intros t. do 4 (destruct t as [|t]; [vm_compute; reflexivity|]). reflexivity.
 Qed.
 
-(* ---- select() fails in clientInput (EINTR).  HEAD: the loop is left without state = RFB_SHUTDOWN; the final signal
-   wakes an output thread that re-tests the state, finds nothing wrong and waits again; the input thread blocks in
-   THREAD_JOIN.  Neither of the client's threads can move any more; only an rfbCloseClient by somebody else
-   (rfbShutdownServer, another client's non-shared ClientInit) ends it. *)
+(* before 86ddb5d: select() fails in clientInput (EINTR was not retried).  The loop is left without state = RFB_SHUTDOWN; the
+   final signal wakes an output thread that re-tests the state, finds nothing wrong and waits again; the input thread blocks in
+   THREAD_JOIN.  Neither of the client's threads can move any more; only an rfbCloseClient by somebody else ends it. *)
 Definition sh_selfail_witness : list nat := [2;2;2; 1;1;1;1; 2;2;2; 2;2;2].
 Theorem input_leaves_loop_without_shutdown :
-  let s := run sh_st (sh_step_cfg cfg_selfail) sh_selfail_witness sh_init in
+  let s := run sh_st (sh_step_cfg cfg_before_86ddb5d) sh_selfail_witness sh_init in
   sh_shut s = false /\ sh_gone s = 0 /\ sh_pcI s = 4 /\ sh_wait s = true /\
-  enabled sh_st (sh_step_cfg cfg_selfail) 1 s = false /\ enabled sh_st (sh_step_cfg cfg_selfail) 2 s = false.
+  enabled sh_st (sh_step_cfg cfg_before_86ddb5d) 1 s = false /\ enabled sh_st (sh_step_cfg cfg_before_86ddb5d) 2 s = false.
 Proof. vm_compute. repeat split. Qed.
 
-(* with notes/fix_C13_4.diff (clientInput closes the client itself when it leaves the loop with state != RFB_SHUTDOWN):
-   the client's two threads ALONE always finish, the teardown runs exactly once ... *)
-Definition sh12_reach : list sh_st := explore sh_st sh_st_beq (sh_step12 cfg_selfail_fixed) 3 200000 [sh_init] [].
-Definition sh12_finishing : list nat := concat (repeat [1;2] 40).
-Lemma sh12_closed : closed sh_st sh_st_beq (sh_step12 cfg_selfail_fixed) 3 sh12_reach = true.
-Proof. vm_compute. reflexivity. Qed.
-Lemma sh12_init : In sh_init sh12_reach.
-Proof. apply (mem_in _ _ internal_sh_st_dec_bl). vm_compute. reflexivity. Qed.
-Lemma sh12_good :
-  forallb (fun s => stuck_free sh_st (sh_step12 cfg_selfail_fixed) 3 sh_final12 s &&
-                    sh_final12 (run sh_st (sh_step12 cfg_selfail_fixed) sh12_finishing s)) sh12_reach = true.
-Proof. vm_compute. reflexivity. Qed.
-Theorem input_exit_fixed_client_threads_finish : forall sched,
-  let s := run sh_st (sh_step12 cfg_selfail_fixed) sched sh_init in
-  (sh_final12 s = true \/ exists t, t < 3 /\ enabled sh_st (sh_step12 cfg_selfail_fixed) t s = true) /\
-  sh_final12 (run sh_st (sh_step12 cfg_selfail_fixed) sh12_finishing s) = true.
-Proof.
-  intros sched s.
-  assert (H := all_schedules sh_st sh_st_beq internal_sh_st_dec_bl (sh_step12 cfg_selfail_fixed) 3 (sh12_bound cfg_selfail_fixed)
-                 sh12_reach _ sh_init sh12_closed sh12_init sh12_good sched).
-  cbv beta in H. fold s in H. apply andb_true_iff in H. destruct H as [H1 H2]. split; [|exact H2].
-  unfold stuck_free in H1. apply orb_true_iff in H1. destruct H1 as [H1|H1]; auto.
-  right. apply existsb_exists in H1. destruct H1 as [t [Ht E]]. exists t. split.
-  - apply in_seq in Ht. lia.
-  - unfold enabled. exact E.
-Qed.
-
-(* ... and together with rfbShutdownServer and a second closer: never stuck, always finishable, teardown once *)
-Definition shF_reach : list sh_st := explore sh_st sh_st_beq (sh_step_cfg cfg_selfail_fixed) 4 400000 [sh_init] [].
-Lemma shF_closed : closed sh_st sh_st_beq (sh_step_cfg cfg_selfail_fixed) 4 shF_reach = true.
-Proof. vm_compute. reflexivity. Qed.
-Lemma shF_init : In sh_init shF_reach.
-Proof. apply (mem_in _ _ internal_sh_st_dec_bl). vm_compute. reflexivity. Qed.
-Lemma shF_good :
-  forallb (fun s => stuck_free sh_st (sh_step_cfg cfg_selfail_fixed) 4 sh_final s &&
-                    sh_final (run sh_st (sh_step_cfg cfg_selfail_fixed) sh_finishing s) && sh_gone_ok s) shF_reach = true.
-Proof. vm_compute. reflexivity. Qed.
-Theorem input_exit_fixed_shutdown_terminates : forall sched,
-  let s := run sh_st (sh_step_cfg cfg_selfail_fixed) sched sh_init in
-  (sh_final s = true \/ exists t, t < 4 /\ enabled sh_st (sh_step_cfg cfg_selfail_fixed) t s = true) /\
-  sh_final (run sh_st (sh_step_cfg cfg_selfail_fixed) sh_finishing s) = true /\ sh_gone s <= 1.
-Proof.
-  intros sched s.
-  assert (H := all_schedules sh_st sh_st_beq internal_sh_st_dec_bl (sh_step_cfg cfg_selfail_fixed) 4 (shc_bound cfg_selfail_fixed)
-                 shF_reach _ sh_init shF_closed shF_init shF_good sched).
-  cbv beta in H. fold s in H. apply andb_true_iff in H. destruct H as [H H3]. apply andb_true_iff in H. destruct H as [H1 H2].
-  split; [|split; [exact H2|]].
-  - unfold stuck_free in H1. apply orb_true_iff in H1. destruct H1 as [H1|H1]; auto.
-    right. apply existsb_exists in H1. destruct H1 as [t [Ht E]]. exists t. split.
-    + apply in_seq in Ht. lia.
-    + unfold enabled. exact E.
-  - unfold sh_gone_ok in H3. apply andb_true_iff in H3. destruct H3 as [H3 _]. apply andb_true_iff in H3. destruct H3 as [H3 _].
-    apply Nat.leb_le in H3. exact H3.
-Qed.
-
 (* ------------------------------------------------------------------ 4. thread reclamation *)
-Lemma th_cycles_run : forall n s, fold_left th_step (th_cycles n) s = mkTh (th_live s) (n + th_zombie s).
+Lemma th_cycles_run : forall f n s, fold_left (th_step f) (th_cycles n) s = mkTh (th_live s) ((if f then 0 else n) + th_zombie s).
 Proof.
-  induction n as [|n IH]; intros [l z]; simpl; auto.
-  rewrite IH. simpl. f_equal. lia.
+  intros f. induction n as [|n IH]; intros [l z]; simpl; [destruct f; reflexivity|].
+  rewrite IH. simpl. destruct f; simpl; f_equal; lia.
 Qed.
 
-(* after n connect/disconnect cycles n ended threads have never been joined (for every n) *)
-Theorem threads_never_joined : forall n, th_zombie (th_run (th_cycles n)) = n /\ th_live (th_run (th_cycles n)) = 0.
+(* the counter (bookkeeping, true by construction): HEAD leaves n ended threads after n connect/disconnect cycles and
+   rfbShutdownServer does not reclaim them; with the self-detach none is left *)
+Theorem threads_never_joined : forall n, th_zombie (th_run false (th_cycles n)) = n /\ th_live (th_run false (th_cycles n)) = 0.
 Proof. intros n. unfold th_run. rewrite th_cycles_run. simpl. split; lia. Qed.
-
-Theorem shutdown_does_not_reclaim_them : forall n, th_zombie (th_run (th_cycles n ++ [ThShutdown])) = n.
+Theorem shutdown_does_not_reclaim_them : forall n, th_zombie (th_run false (th_cycles n ++ [ThShutdown])) = n.
 Proof. intros n. unfold th_run. rewrite fold_left_app, th_cycles_run. simpl. lia. Qed.
+Theorem threads_reclaimed_when_detached : forall n, th_zombie (th_run true (th_cycles n ++ [ThShutdown])) = 0.
+Proof. intros n. unfold th_run. rewrite fold_left_app, th_cycles_run. simpl. reflexivity. Qed.
+
+(* ------------------------------------------------------------------ 4f. who reclaims a client thread *)
+Lemma rc_bound : forall f e t s, 2 <= t -> rc_step f e t s = None.
+Proof. intros f e t s H. unfold rc_step. do 2 (destruct t as [|t]; [lia|]). reflexivity. Qed.
+
+(* HEAD: the connection ends by itself before rfbShutdownServer looks: the thread has exited, nobody ever joins or detaches it *)
+Definition rc_leak_witness : list nat := [1;1;1;1;1; 0].
+Theorem client_thread_never_reclaimed :
+  let s := run rc_st (rc_step false false) rc_leak_witness rc_init in
+  rc_final s = true /\ rc_exited s = true /\ rc_reclaimed s = 0.
+Proof. vm_compute. repeat split. Qed.
+
+(* notes/fix_C13_6.diff: for EVERY schedule (the connection ends at any moment relative to the shutdown) the thread is never
+   joined after it detached itself, the application never touches the freed record, the thread is reclaimed at most once - and
+   exactly once when both are through -, nobody gets stuck, and the round-robin continuation gets both through *)
+Definition rc_reach : list rc_st := explore rc_st rc_st_beq (rc_step true false) 2 5000 [rc_init] [].
+Definition rc_finishing : list nat := concat (repeat [0; 1] 10).
+Lemma rc_closed : closed rc_st rc_st_beq (rc_step true false) 2 rc_reach = true.
+Proof. vm_compute. reflexivity. Qed.
+Lemma rc_init_in : In rc_init rc_reach.
+Proof. apply (mem_in _ _ internal_rc_st_dec_bl). vm_compute. reflexivity. Qed.
+Lemma rc_all_good :
+  forallb (fun s => rc_ok s && stuck_free rc_st (rc_step true false) 2 rc_final s &&
+                    (let z := run rc_st (rc_step true false) rc_finishing s in rc_final z && (rc_reclaimed z =? 1) && negb (rc_bad z))) rc_reach = true.
+Proof. vm_compute. reflexivity. Qed.
+Theorem client_thread_reclaimed_exactly_once : forall sched,
+  let s := run rc_st (rc_step true false) sched rc_init in
+  rc_bad s = false /\ rc_reclaimed s <= 1 /\ (rc_final s = true -> rc_reclaimed s = 1) /\
+  (rc_final s = true \/ exists t, t < 2 /\ enabled rc_st (rc_step true false) t s = true) /\
+  (let z := run rc_st (rc_step true false) rc_finishing s in rc_final z = true /\ rc_reclaimed z = 1 /\ rc_bad z = false).
+Proof.
+  intros sched s.
+  assert (H := all_schedules rc_st rc_st_beq internal_rc_st_dec_bl (rc_step true false) 2 (rc_bound true false)
+                 rc_reach _ rc_init rc_closed rc_init_in rc_all_good sched).
+  cbv beta in H. fold s in H. apply andb_true_iff in H. destruct H as [H H3]. apply andb_true_iff in H. destruct H as [H1 H2].
+  unfold rc_ok in H1. apply andb_true_iff in H1. destruct H1 as [H1 Hf]. apply andb_true_iff in H1. destruct H1 as [Hb Hle].
+  split; [apply negb_true_iff; exact Hb|]. split; [apply Nat.leb_le; exact Hle|]. split.
+  - intros E. rewrite E in Hf. simpl in Hf. apply Nat.eqb_eq. exact Hf.
+  - split.
+    + unfold stuck_free in H2. apply orb_true_iff in H2. destruct H2 as [H2|H2]; auto.
+      right. apply existsb_exists in H2. destruct H2 as [t [Ht E]]. exists t. split.
+      * apply in_seq in Ht. lia.
+      * unfold enabled. exact E.
+    + cbv zeta in H3. apply andb_true_iff in H3. destruct H3 as [H3 Hnb]. apply andb_true_iff in H3. destruct H3 as [Hfin Hr].
+      split; [exact Hfin|]. split; [apply Nat.eqb_eq; exact Hr | apply negb_true_iff; exact Hnb].
+Qed.
+Lemma client_thread_reclaimed_nonvacuous :
+  (let s := run rc_st (rc_step true false) [0;0;0;0; 1;1;1;1;1; 0] rc_init in rc_final s = true /\ rc_joined s = 1 /\ rc_detached s = false) /\
+  (let s := run rc_st (rc_step true false) [1;1;1;1;1; 0] rc_init in rc_final s = true /\ rc_joined s = 0 /\ rc_detached s = true).
+Proof. vm_compute. repeat split. Qed.
+
+(* the theorem is not a tautology: a thread that looks at the claim flag BEFORE it has been unlinked can miss a claim made
+   afterwards - it detaches itself and rfbShutdownServer joins it *)
+Definition rc_early_witness : list nat := [1; 0;0;0;0; 1;1;1;1; 0].
+Theorem claim_must_be_read_after_the_unlink :
+  rc_bad (run rc_st (rc_step true true) rc_early_witness rc_init) = true.
+Proof. vm_compute. reflexivity. Qed.
 
 (* ------------------------------------------------------------------ 4b. a request wakes the output thread *)
 Lemma rq_bound : forall b kd t s, 3 <= t -> rq_step b kd t s = None.
@@ -541,7 +571,7 @@ Theorem shutdown_join_reads_freed_record :
 Proof. vm_compute. split; reflexivity. Qed.
 
 (* ------------------------------------------------------------------ 4e. rfbNewFramebuffer vs. a client that goes / arrives *)
-(* HEAD: the peer of an idle client disconnects between the pass that locks every sendMutex and the pass that unlocks them:
+(* before 74169c1: the peer of an idle client disconnects between the pass that locks every sendMutex and the pass that unlocks them:
    the client is closed (skipped by the second iterator) and already unlinked; rfbNewFramebuffer returns still holding
    its sendMutex; the client's own thread blocks for ever in rfbClientConnectionGone (LOCK(cl->sendMutex), rfbserver.c:669) *)
 Definition nf_gone_witness : list nat := [0;0;0; 1;1;1; 0;0;0; 1].
@@ -554,7 +584,7 @@ Proof.
   intros t. do 2 (destruct t as [|t]; [vm_compute; reflexivity|]). reflexivity.
 Qed.
 
-(* HEAD: a connection accepted between the two passes gets an UNLOCK of a sendMutex nobody locked *)
+(* before 74169c1: a connection accepted between the two passes gets an UNLOCK of a sendMutex nobody locked *)
 Definition nf_new_witness : list nat := [0;0; 1; 0;0].
 Theorem newfb_unlocks_unlocked_mutex :
   nf_badunlock (run nf_st (nf_step false 1) nf_new_witness (nf_init 1)) = true.
@@ -563,38 +593,7 @@ Proof. vm_compute. reflexivity. Qed.
 Lemma nf_bound : forall f m t s, 2 <= t -> nf_step f m t s = None.
 Proof. intros f m t s H. unfold nf_step. do 2 (destruct t as [|t]; [lia|]). reflexivity. Qed.
 
-(* what does hold at HEAD, for every schedule: as long as the client neither goes nor arrives WHILE rfbNewFramebuffer runs
-   the bracket is balanced - here: the client thread moves only after rfbNewFramebuffer has returned *)
-Definition nf_step_serial (m : nat) (t : nat) (s : nf_st) : option nf_st :=
-  match t with
-  | 0 => nf_step false m 0 s
-  | 1 => if nf_pcA s =? NF_APP_DONE then nf_step false m 1 s else None
-  | _ => None
-  end.
-Lemma nfs_bound : forall m t s, 2 <= t -> nf_step_serial m t s = None.
-Proof. intros m t s H. unfold nf_step_serial. do 2 (destruct t as [|t]; [lia|]). reflexivity. Qed.
-Definition nfs_reach (m : nat) : list nf_st := explore nf_st nf_st_beq (nf_step_serial m) 2 5000 [nf_init m] [].
-Lemma nfs_closed : forall m, m < 2 -> closed nf_st nf_st_beq (nf_step_serial m) 2 (nfs_reach m) = true.
-Proof. intros m H. do 2 (destruct m as [|m]; [vm_compute; reflexivity|]). exfalso; lia. Qed.
-Lemma nfs_init : forall m, m < 2 -> In (nf_init m) (nfs_reach m).
-Proof. intros m H. apply (mem_in _ _ internal_nf_st_dec_bl). do 2 (destruct m as [|m]; [vm_compute; reflexivity|]). exfalso; lia. Qed.
-Lemma nfs_ok : forall m, m < 2 -> forallb (fun s => nf_ok s && stuck_free nf_st (nf_step_serial m) 2 nf_final s) (nfs_reach m) = true.
-Proof. intros m H. do 2 (destruct m as [|m]; [vm_compute; reflexivity|]). exfalso; lia. Qed.
-Theorem newfb_balanced_when_serialised : forall m sched, m < 2 ->
-  let s := run nf_st (nf_step_serial m) sched (nf_init m) in
-  nf_ok s = true /\ (nf_final s = true \/ exists t, t < 2 /\ enabled nf_st (nf_step_serial m) t s = true).
-Proof.
-  intros m sched Hm s.
-  assert (H := all_schedules nf_st nf_st_beq internal_nf_st_dec_bl (nf_step_serial m) 2 (nfs_bound m)
-                 (nfs_reach m) _ (nf_init m) (nfs_closed m Hm) (nfs_init m Hm) (nfs_ok m Hm) sched).
-  cbv beta in H. fold s in H. apply andb_true_iff in H. destruct H as [H1 H2]. split; [exact H1|].
-  unfold stuck_free in H2. apply orb_true_iff in H2. destruct H2 as [H2|H2]; auto.
-  right. apply existsb_exists in H2. destruct H2 as [t [Ht E]]. exists t. split.
-  - apply in_seq in Ht. lia.
-  - unfold enabled. exact E.
-Qed.
-
-(* with notes/fix_C13_5.diff: EVERY schedule of both modes (the client goes / arrives at any moment) is balanced, nobody gets
+(* HEAD (74169c1 = notes/fix_C13_5.diff): EVERY schedule of both modes (the client goes / arrives at any moment) is balanced, nobody gets
    stuck, and the round-robin continuation ends with rfbNewFramebuffer returned, the mutex free and, in mode 0, the record freed *)
 Definition nff_reach (m : nat) : list nf_st := explore nf_st nf_st_beq (nf_step true m) 2 5000 [nf_init m] [].
 Definition nf_finishing : list nat := concat (repeat [0; 1] 12).
